@@ -49,6 +49,7 @@ def registry():
         space_py.register2(_REG, PROPERTIES)
         from . import spmgr_py
         spmgr_py.register(_REG, PROPERTIES)
+        spmgr_py.register2(_REG, PROPERTIES)
         from . import serialize_py
         serialize_py.register(_REG, PROPERTIES)
         from . import registry_py
